@@ -179,9 +179,12 @@ def check_sums(ctx):
     ok = loop is not None and any(isinstance(s, ast.If) and ast.unparse(s.test) == "(arrow.dom, arrow.cod) != (dom, cod)" and "AxiomError" in ast.unparse(s.body[-1]) for s in loop.body)
     ctx.ob("R02.3", CAT + ".Sum.__init__:typed-terms", ok, found=ast.unparse(loop)[:100] if loop else None, required="every term is checked against (dom, cod) with AxiomError", mod=CAT, node=fn,
            sig="sum-typed")
-    emp = [s for s in fn.body if isinstance(s, ast.If) and ast.unparse(s.test) == "not terms"]
-    ok = bool(emp) and "ValueError" in ast.unparse(emp[0].body[0])
-    ctx.ob("R02.3", CAT + ".Sum.__init__:empty-needs-types", ok, found=ast.unparse(emp[0].test) if emp else None, required="the empty sum must be given its types", mod=CAT, node=fn, sig="sum-empty")
+    emp = [s for s in fn.body if isinstance(s, ast.If) and ast.unparse(s.test) in ("not terms", "terms")]
+    empty_branch = (emp[0].body if ast.unparse(emp[0].test) == "not terms" else emp[0].orelse) if emp else []
+    ok = any(isinstance(x, ast.If) and shape.key(x.test) == shape.key(shape.parse("dom is None or cod is None")) and isinstance(x.body[-1], ast.Raise) and "ValueError" in ast.unparse(x.body[-1])
+             for x in empty_branch)
+    ctx.ob("R02.3", CAT + ".Sum.__init__:empty-needs-types", ok, found=[ast.unparse(x)[:80] for x in empty_branch] or None, required="the empty sum must be given its types (ValueError otherwise)", mod=CAT, node=fn,
+           sig="sum-empty")
 
 
 def run_dagger(m, cls, build):
